@@ -158,7 +158,7 @@ def impl_run(cfg: Cfg, stmts, ns, sink, entry, case) -> dict:
         if entry == "flat_file":
             opts = None
             if case.get("options_given", True):
-                opts = make_stream(cfg).options  # builds SerializerOptions the same way
+                opts = core.make_options(cfg)  # builds SerializerOptions the same way
             gser.flat_stream_to_file(PullLog(stmts, trace), out, opts)
         elif entry == "grouped_file":
             sinks = []
@@ -171,7 +171,7 @@ def impl_run(cfg: Cfg, stmts, ns, sink, entry, case) -> dict:
                 sinks.append(s)
             kw = {}
             if case.get("options_given", True):
-                kw["options"] = make_stream(cfg).options
+                kw["options"] = core.make_options(cfg)
             gser.grouped_stream_to_file((s for s in sinks), out, **kw)
         elif entry == "sink_serialize":
             s = gs.GenericStatementSink()
